@@ -288,6 +288,7 @@ pub fn pair(args: &Args) {
     let pollat_mode = args.flag("pollat");
     let probe = args.flag("probe");
     let small = args.flag("small");
+    let force_zwr = args.flag("zwr");
     let maxbytes = args.u64("maxbytes", 20000);
     let only = args.map.get("only").map(|x| x.parse::<usize>().unwrap());
     for run in 0..runs {
@@ -328,6 +329,14 @@ pub fn pair(args: &Args) {
         } else {
             BLACKOUT.with(|c| c.set((0, 0)));
         }
+        // zero-window runs: a small receive buffer whose reader sleeps for seconds and then takes everything at once; the
+        // zero-window ACKs of that time are overtaken by the window update, and some of the data sent into the re-opened
+        // window is lost (the stall patterns named in C02 live here)
+        let zwr = !aligned && !blackout && (rng.chance(12) || force_zwr);
+        if zwr {
+            cb.rx = *rng.pick(&[1usize, 2, 3]) * seg;
+            ca.tx = ca.tx.max(3 * cb.rx).min(65535);
+        }
         let scripted_loss = aligned && rng.chance(50);
         DROP_NTH_DATA.with(|c| c.set(if scripted_loss { *rng.pick(&[1i64, 1, 2, kseg as i64]) } else { 0 }));
         let mut eps = [Ep::new(0, ca.clone(), Instant::from_millis(0)), Ep::new(1, cb.clone(), Instant::from_millis(0))];
@@ -340,12 +349,28 @@ pub fn pair(args: &Args) {
         let jitter = *rng.pick(&[0u64, 0, 5, 50, 300]) as i64;
         let adv_until = rng.range(200, 8000) as i64; // end of the adversarial phase (ms)
         let (drop_pct, dup_pct, flip_pct, jitter) = if scripted_loss { (0, 0, 0, 0) } else { (drop_pct, dup_pct, flip_pct, jitter) };
+        #[allow(unused_mut)]
         let mut total = [rng.below(maxbytes + 1) as i64, if rng.chance(50) { rng.below(maxbytes / 4 + 1) as i64 } else { 0 }];
         if aligned {
             total[0] = ((kseg + *rng.pick(&[1usize, 1, 2])) * seg) as i64;
         }
-        let reader_stall = [if rng.chance(25) { rng.range(100, 5000) as i64 } else { 0 }, if rng.chance(35) { rng.range(100, 5000) as i64 } else { 0 }];
-        t.ev(json!({"ev":"reset","run":run,"world":"tcp_pair","seed":seed0,"pollat":pollat_mode,
+        let mut reader_stall = [if rng.chance(25) { rng.range(100, 5000) as i64 } else { 0 }, if rng.chance(35) { rng.range(100, 5000) as i64 } else { 0 }];
+        let (drop_pct, dup_pct, flip_pct, jitter, adv_until) = if zwr {
+            reader_stall = [0, rng.range(1500, 6000) as i64];
+            // half of the runs: what is left when the window closes for the first time fits the window that re-opens, so
+            // that everything queued is in flight at once
+            total = if rng.chance(50) { [cb.rx as i64 + rng.range(1, cb.rx as u64) as i64, 0] } else { [(cb.rx as i64) * rng.range(3, 8) as i64 + rng.range(0, seg as u64) as i64, 0] };
+            let until = reader_stall[1] + rng.range(1000, 4000) as i64;
+            ZWR.with(|c| c.set((rng.range(2, 400) as i64, *rng.pick(&[0u64, 30, 50, 70]), until)));
+            (0, 0, 0, 0, 0)
+        } else {
+            ZWR.with(|c| c.set((0, 0, 0)));
+            (drop_pct, dup_pct, flip_pct, jitter, adv_until)
+        };
+        // a stream much longer than the smallest buffer on its way only adds steps (and would hit the step limit)
+        total[0] = total[0].min(400 * (ca.tx.min(cb.rx) as i64));
+        total[1] = total[1].min(400 * (cb.tx.min(ca.rx) as i64));
+        t.ev(json!({"ev":"reset","run":run,"world":"tcp_pair","seed":seed0,"pollat":pollat_mode,"args":{"small":small,"probe":probe,"zwr":force_zwr,"maxbytes":maxbytes},"zw":zwr,
             "v6":ca.v6,"cfg":[{"rx":ca.rx,"tx":ca.tx,"mtu":ca.mtu,"cc":ca.cc,"ad":ca.ack_delay.map(|x| x as i64).unwrap_or(-1),"nagle":ca.nagle,"ts":ca.ts,"isn":wa,"ka":ca.keep_alive.map(|x| x as i64).unwrap_or(-1),"tmo":ca.timeout.map(|x| x as i64).unwrap_or(-1),"spare":ca.spare},
                    {"rx":cb.rx,"tx":cb.tx,"mtu":cb.mtu,"cc":cb.cc,"ad":cb.ack_delay.map(|x| x as i64).unwrap_or(-1),"nagle":cb.nagle,"ts":cb.ts,"isn":wb,"ka":cb.keep_alive.map(|x| x as i64).unwrap_or(-1),"tmo":cb.timeout.map(|x| x as i64).unwrap_or(-1),"spare":cb.spare}],
             "link":{"drop":drop_pct,"dup":dup_pct,"flip":flip_pct,"delay":base_delay,"jitter":jitter,"adv_until":adv_until},"total":total}));
@@ -553,6 +578,10 @@ thread_local! {
     static BLACKOUT: std::cell::Cell<(i64, i64)> = const { std::cell::Cell::new((0, 0)) };
     /// aligned runs: endpoint 0 writes its whole stream with one call and closes at once
     static BULK_WRITE: std::cell::Cell<bool> = const { std::cell::Cell::new(false) };
+    /// zero-window runs: (hold, drop, until) -- until `until`, endpoint 1's empty segments advertising a zero window
+    /// are held back `hold` ms (so that a later window update overtakes them), endpoint 0's data segments are lost
+    /// with probability `drop` %, everything else is delivered in order; endpoint 1 reads all it has in one call
+    static ZWR: std::cell::Cell<(i64, u64, i64)> = const { std::cell::Cell::new((0, 0, 0)) };
 }
 
 fn emit_frames(rng: &mut Rng, flight: &mut Vec<InFlight>, next_id: &mut u64, last_arrival: &mut [i64; 2], out: Vec<Vec<u8>>, from: usize, now: i64,
@@ -575,6 +604,29 @@ fn emit_frames(rng: &mut Rng, flight: &mut Vec<InFlight>, next_id: &mut u64, las
                 });
                 if left == 0 {
                     t.ev(json!({"ev":"net","fid":id,"fate":"drop","scripted":true}));
+                    continue;
+                }
+            }
+        }
+        let (zhold, zdrop, zuntil) = ZWR.with(|c| c.get());
+        if zhold > 0 && now < zuntil {
+            if let Some(IpPkt { l4: L4::Tcp(ref seg), .. }) = parse_ip(&f) {
+                if from == 1 && seg.payload.is_empty() && seg.win == 0 && !seg.syn && !seg.fin && !seg.rst {
+                    // parked until the window update that follows has been sent (at the latest until the phase ends)
+                    t.ev(json!({"ev":"net","fid":id,"fate":"held","d":zuntil - now}));
+                    flight.push(InFlight { at: zuntil + (id % 7) as i64, to, frame: f, id, fate: "held" });
+                    continue;
+                }
+                if from == 1 && seg.win > 0 && !seg.syn {
+                    // the window re-opens: what was parked arrives `zhold` ms behind this segment
+                    for g in flight.iter_mut() {
+                        if g.fate == "held" && g.at > now + base_delay + zhold {
+                            g.at = now + base_delay + zhold;
+                        }
+                    }
+                }
+                if from == 0 && !seg.payload.is_empty() && rng.below(100) < zdrop {
+                    t.ev(json!({"ev":"net","fid":id,"fate":"drop","zw":true}));
                     continue;
                 }
             }
@@ -665,7 +717,7 @@ fn app_step(eps: &mut [Ep; 2], e: usize, now: i64, rng: &mut Rng, total: &[i64; 
         let s = eps[e].sock();
         let active = !matches!(s.state(), tcp::State::Listen | tcp::State::SynSent | tcp::State::SynReceived);
         if (s.can_recv() || (!finished[e] && active && !s.may_recv())) && rng.chance(85) {
-            let maxn = rng.range_pick(1, &[1u64, 16, 256, 4096, 70000]) as usize;
+            let maxn = if e == 1 && ZWR.with(|c| c.get().0) > 0 { 70000 } else { rng.range_pick(1, &[1u64, 16, 256, 4096, 70000]) as usize };
             let mut buf = vec![0u8; maxn];
             let rq = s.recv_queue();
             let r = s.recv_slice(&mut buf);
